@@ -1,5 +1,6 @@
 """C09 - response data is well-formed and denotes exactly the value that was formatted (framing and tables)."""
-import re
+import re, json, os
+VERIF = os.path.dirname(os.path.dirname(os.path.dirname(os.path.abspath(__file__))))
 from .. import facts, fdai, scpi_models as M, sym
 from ..fdai import EnumV, AggV, K, SymV, RefV, Cell, Loc, TOP, load, snapshot, BytesV
 from . import dispatch as D, convert as CV, contrib as CB
@@ -112,6 +113,9 @@ def int_writers(R, rule="R09.1"):
             need = C_bits(ity) + (1 if ity.startswith("i") else 0)
             R.check(good and bufs and min(bufs) >= need, rule, "%s:%s" % (ity, wname), "prefix %r then write_with_options::<%s, radix %d>(self.0); buffer %s >= %d" % (prefix.decode(), ity, radix, bufs, need), "%s<%s> writer: prefix %r, radix %d, value self.0, returned slice pushed, buffer >= %d bytes required: %s buffers %s" % (wname, ity, prefix.decode(), radix, need, [p.describe() for p in ps], bufs), where=b2.span)
     R.floor(rule, "integer writers", n_int, 40)
+
+
+SUFFIX_ORACLE = json.load(open(os.path.join(VERIF, "oracle", "suffix.json")))["quantities"]
 
 
 def run(R, tier):
@@ -301,9 +305,34 @@ def run(R, tier):
                 covered.add(ty)
                 continue
             if ty.startswith("uom::si::Quantity<"):
-                em = E.emit(em_eng, wb, AggV("uom::si::Quantity", {0: fdai.UNIT, 1: fdai.UNIT, 2: SymV("val", "val")}))
-                why = E.check_emission(em, [("item", "val")])
-                R.check(not why, "R09.10", "Quantity@%s" % wb.span.rsplit(":", 1)[-1], "a unit quantity is written as its numeric value (in the unit it is stored in), nothing else", "unit quantity writer: %s" % why, where=wb.span)
+                # A quantity is written as ONE number: its value in the unit a suffix-less number is read in (the `$base` of the
+                # same conversion, C18 / oracle/suffix.json) - obtained through uom's `get::<base>()`, never the raw storage
+                # value, which is in the unit system's own base (kelvin for temperatures: 25 CEL written as 298.15 and read
+                # back as 298.15 CEL, defect F23)
+                res_q = em_eng.run(wb, [RefV(Cell(AggV("uom::si::Quantity", {0: fdai.UNIT, 1: fdai.UNIT, 2: SymV("val", "val")}), "self")), RefV(Cell(TOP, "fmt"), (), True)])
+                em = E.Emission(res_q)
+                why = None
+                qmod = None
+                if em.other or len(em.full) != 1 or len(em.full[0][1]) != 1 or em.full[0][1][0][0] != "item":
+                    why = "writes %s (one number expected)" % ([o for _, o in em.full][:2] or em.other[:1])
+                else:
+                    for r_ in res_q:
+                        gets = [e for e in r_.trace if e.kind == "call" and str(e.name).endswith(">::get") and str(e.name).startswith("uom::si::")]
+                        wr = [e for e in r_.trace if e.kind == "call" and str(e.name).endswith("format_response_data")]
+                        if len(gets) != 1 or len(wr) != 1:
+                            why = "the number written is not the quantity expressed in a unit (calls: %s)" % [str(e.name).split("::")[-1] for e in r_.trace if e.kind == "call"][:4]
+                            break
+                        g_ = (gets[0].extra or {}).get("gargs") or ()
+                        qmod = str(gets[0].name).split("::")[2]
+                        unit_ty = str(g_[-1]) if g_ else "?"
+                        if "'self'" not in repr(gets[0].args[0]) or repr(("ret", str(gets[0].name)))[1:-1].split(",")[1].strip() not in repr(wr[0].args[0]):
+                            why = "get() is not applied to the quantity itself or its result is not what is written"
+                            break
+                        base = (SUFFIX_ORACLE.get(qmod) or {}).get("base")
+                        if base is None or unit_ty != "uom::si::%s::%s" % (qmod, base):
+                            why = "written in %s, but a number without suffix is read as %s" % (unit_ty, base)
+                            break
+                R.check(not why, "R09.10", "Quantity@%s" % (qmod or "not-through-a-unit"), "a unit quantity is written as one number: its value in the unit a suffix-less number is read in", "unit quantity writer: %s" % why, where=wb.span)
                 covered.add(ty)
                 continue
             if ty.endswith("util::Auto"):
